@@ -22,7 +22,8 @@ VERIF = os.path.dirname(os.path.dirname(os.path.abspath(__file__)))
 REPO = os.environ.get("VERIF_REPO", "/repo")
 SRC_ROOT = os.path.join(REPO, "oxidize-pdf-core", "src")
 
-LIB_HEADER = """#![allow(dead_code, unused_imports, unused_variables, unused_mut, unused_macros, unreachable_code, unused_assignments)]
+LIB_HEADER = """#![cfg_attr(kani, feature(allocator_api))]
+#![allow(dead_code, unused_imports, unused_variables, unused_mut, unused_macros, unreachable_code, unused_assignments)]
 #![allow(clippy::all)]
 """
 
@@ -146,9 +147,12 @@ class Assembly:
                 if missing:
                     raise AssemblyError("items not found in %s: %s" % (rel, ", ".join(missing)))
                 self.manifest.extend(man)
-                uses = self.render_uses(sf, m)
+                uses = "" if m.get("no_uses") else self.render_uses(sf, m)
                 text = uses + "\n" + body
             text = self.apply_rebinds(rel, text, m.get("rebind", []) + spec.get("rebind_all", []))
+            if "tracing::" in text and "tracing" in spec.get("shims", []):
+                text = "use crate::verif_shims::tracing;\n" + text
+                self.rebinds.append({"file": rel, "from": "extern crate tracing (logging macros)", "to": "crate::verif_shims::tracing (no-op macros)", "count": text.count("tracing::")})
             text = m.get("prelude", "") + text + m.get("epilogue", "")
             if m.get("harness"):
                 text += self.render_harness(m["harness"], "::".join(mod_path_of(rel)))
@@ -250,8 +254,14 @@ class Assembly:
                 attrs = "#[kani::proof]\n"
                 if ob.unwind:
                     attrs += "#[kani::unwind(%s)]\n" % ob.unwind
-                for st in [s for s in ob.stubs.split(",") if s]:
-                    attrs += "#[kani::stub(%s)]\n" % STUBS[st]
+                for st in expand_stubs(ob.stubs):
+                    if st.startswith("params:"):
+                        # per-instance constant parameter dictionary (see harness const_params!)
+                        mod = "crate::%s::verif_harness::%s" % (module_path, st.split(":", 1)[1])
+                        attrs += "#[kani::stub(crate::verif_shims::pdfdict_model::PdfDictionary::get, %s::get)]\n" % mod
+                        attrs += "#[kani::stub(crate::parser::objects::PdfObject::as_integer, %s::as_integer)]\n" % mod
+                    else:
+                        attrs += "#[kani::stub(%s)]\n" % STUBS[st]
                 wrappers.append("%spub fn %s__main() { %s::<0>() }\n" % (attrs, ob.id, ob.id))
                 for i, kf in enumerate(self.known_for(ob.kfgroup), start=1):
                     wrappers.append("%spub fn %s__kf%d() { %s::<%d>() }\n" % (attrs, ob.id, i, ob.id, i))
@@ -284,6 +294,10 @@ class Assembly:
 
 
 STUBS = {
+    "vec_new": "alloc::vec::Vec::new, crate::verif_shims::vec_new_roomy",
+    "vec_cap": "alloc::vec::Vec::with_capacity, crate::verif_shims::vec_with_capacity_roomy",
+    "vec_push": "alloc::vec::Vec::push, crate::verif_shims::vec_push_nogrow",
+    "vec_extend": "alloc::vec::Vec::extend_from_slice, crate::verif_shims::vec_extend_from_slice_nogrow",
     "str_repeat": "str::repeat, crate::verif_shims::str_repeat_small",
     "string_new": "alloc::string::String::new, crate::verif_shims::string_new_roomy",
     "push_str": "alloc::string::String::push_str, crate::verif_shims::push_str_nogrow",
@@ -293,6 +307,16 @@ STUBS = {
     "to_uppercase": "str::to_uppercase, crate::verif_shims::str_to_uppercase_ascii",
     "fmt": "alloc::fmt::format, crate::verif_shims::fmt_stub",
 }
+
+
+STUB_GROUPS = {"vec": ["vec_new", "vec_cap", "vec_push", "vec_extend"]}
+
+
+def expand_stubs(spec: str):
+    out = []
+    for st in [x for x in spec.split(",") if x]:
+        out.extend(STUB_GROUPS.get(st, [st]))
+    return out
 
 
 class AssemblyError(Exception):
